@@ -618,3 +618,117 @@ class TheEvaluateHelper(TopLevel):
 
 
 CONTRACTS += [TheEvaluate, TheEvaluateHelper]
+
+
+NodeSeq = z3.SeqSort(Z.Node)
+
+
+class StackMixin:
+    """SymbolicExpression._symbolic_expression_stack_ (class-level list) as a z3 sequence of nodes"""
+
+    def obj_exprstack_append(self, eng, st, recv, args, kwargs, node):
+        st = st.clone()
+        st.ghost['stack'] = z3.Concat(st.ghost['stack'], z3.Unit(ModeMixinNode(args[0])))
+        return [(st, NONE)]
+
+    def obj_exprstack_pop(self, eng, st, recv, args, kwargs, node):
+        st = st.clone()
+        s = st.ghost['stack']
+        eng.oblige(st, f"safe/pop-from-non-empty-stack@L{node.lineno}", z3.Length(s) > 0, line=node.lineno)
+        st.ghost['stack'] = z3.Extract(s, 0, z3.Length(s) - 1)
+        return [(st, NONE)]
+
+
+def ModeMixinNode(v):
+    if isinstance(v, ZV) and v.ty in ('node', 'optnode'):
+        return v.t
+    raise OutOfSubset(f"push of {v}")
+
+
+class SymbolicModeCM(StackMixin, ModeMixin, LibModel):
+    """symbolic.symbolic_mode (a generator based context manager) and, through it, rule_mode (C08):
+    whatever way the block is left (normally or by an exception), the mode cell and the expression stack are exactly
+    what they were when the block was entered.  The body of the block is arbitrary but balanced (nested blocks
+    satisfy this same contract: induction on the nesting depth, A9)."""
+    qual = 'symbolic:symbolic_mode'
+    cls = None
+    props = ('C08',)
+    modes = ('sound',)
+    cm_name = 'symbolic_mode'
+    inline = ()
+
+    def setup(self, eng):
+        sts = []
+        for with_query in (False, True):
+            st = State()
+            st.fields = init_fields()
+            st.path.append('query=' + ('given' if with_query else 'None'))
+            m0 = z3.Const('mode_at_entry', Mode)
+            s0 = z3.Const('stack_at_entry', NodeSeq)
+            st.ghost.update({'mode': m0, 'mode0': m0, 'stack': s0, 'stack0': s0})
+            st.assume(MODE_DISTINCT)
+            q = z3.Const('query', Z.Node)
+            st.assume(q != Z.NoneNode)
+            st.locals['query'] = ZV(q, 'node') if with_query else NONE
+            st.locals['mode'] = ZV(z3.Const('mode_arg', Mode), 'mode')
+            st.ghost['cm_under_proof'] = True
+            sts.append(st)
+        return sts
+
+    def getattr(self, eng, st, recv, name):
+        if isinstance(recv, ZV) and recv.ty == 'node' and name in ('__enter__', '__exit__'):
+            return [(st, Meth(recv, name))]
+        if isinstance(recv, ZV) and recv.ty == 'node' and name in ('_root_',):
+            return [(st, ZV(z3.Function('root_of', Z.Node, Z.Node)(recv.t), 'node'))]
+        return super().getattr(eng, st, recv, name)
+
+    def call(self, eng, st, f, args, kwargs, node):
+        if isinstance(f, Meth) and isinstance(f.recv, ZV) and f.recv.ty == 'node' and f.name in ('__enter__', '__exit__'):
+            q = self.src.resolve_method('SymbolicExpression', f.name)
+            return self.inline_method(eng, st, q, f.recv, [a for a in args if not (isinstance(a, Obj) and a.kind == 'star')], kwargs, node)
+        if isinstance(f, C) and isinstance(f.v, Ref) and f.v.name == 'current_parent':
+            s = st.ghost['stack']
+            return [(st, ZV(z3.If(z3.Length(s) > 0, s[z3.Length(s) - 1], Z.NoneNode), 'optnode'))]
+        return super().call(eng, st, f, args, kwargs, node)
+
+    def obj_truth(self, eng, st, v):
+        if v.kind == 'exprstack':
+            return z3.Length(st.ghost['stack']) > 0
+        return None
+
+    def subscript(self, eng, st, recv, k):
+        if isinstance(recv, Obj) and recv.kind == 'exprstack' and isinstance(k, C) and k.v == -1:
+            s = st.ghost['stack']
+            return [(st, ZV(s[z3.Length(s) - 1], 'node'))]
+        return None
+
+    def yield_outcomes(self, eng, st, v, ordinal, node):
+        if self.is_cm_yield(st, node):
+            return self.cm_yield(eng, st, v, node)
+        # the yield of the manager under proof: the block runs here; it is balanced, and it may raise
+        a = st.clone()
+        a.path.append('block:completes')
+        b = st.clone()
+        b.path.append('block:raises')
+        return [Outcome(a), Outcome(b, RAISE, C(Ref('exc', 'ExceptionInBlock')))]
+
+    def on_yield(self, eng, st, v, ordinal, node):
+        raise OutOfSubset("unexpected yield")
+
+    def on_exit(self, eng, o):
+        kind = {NEXT: 'normal', RETURN: 'normal', RAISE: 'exception'}.get(o.sig, o.sig)
+        if o.sig == RAISE and isinstance(o.val, C) and isinstance(o.val.v, Ref) and o.val.v.name != 'ExceptionInBlock':
+            kind = 'exception:' + o.val.v.name
+        eng.oblige(o.st, f"C08/exit@{kind}/mode-restored", o.st.ghost['mode'] == o.st.ghost['mode0'])
+        eng.oblige(o.st, f"C08/exit@{kind}/expression-stack-restored", o.st.ghost['stack'] == o.st.ghost['stack0'])
+
+    def signature(self, ob, model):
+        return {}
+
+
+class RuleModeCM(SymbolicModeCM):
+    qual = 'symbolic:rule_mode'
+    cm_name = 'rule_mode'
+
+
+CONTRACTS += [SymbolicModeCM, RuleModeCM]
